@@ -27,11 +27,15 @@ def options():
     return out
 
 
-def ob(sec, opt, mode, L, timeout, fixb=None, extra=()):
+LONG = {"-o": "--output", "-r": "--recursive", "-p": "--prefix", "-e": "--exclude"}
+
+
+def ob(sec, opt, mode, L, timeout, fixb=None, extra=(), long=False):
     fixb = fixb or {}
     n = {"bool": 3, "str": 3 * L, "strseq": 6 * L, "excl": 6 * L, "exclseed": 6 * L, "outdir": 3, "wrongtype": 1}[mode]
-    return vf.CH(f"C16 {mode} {sec}.{opt}" + (f" {sorted(fixb.items())}" if fixb else "") + (f" with {' '.join(extra)} also on the command line" if extra else ""), "c16_layer.py",
-                 dict(MODE=mode, SECTION=sec, OPTION=opt, CLI=CLI.get((sec, opt)), L=L, NCP=n, FIXB=fixb, EXTRA=tuple(extra)),
+    return vf.CH(f"C16 {mode} {sec}.{opt}" + (f" {sorted(fixb.items())}" if fixb else "") + (f" with {' '.join(extra)} also on the command line" if extra else "") + (" (long option spellings)" if long else ""), "c16_layer.py",
+                 dict(MODE=mode, SECTION=sec, OPTION=opt, CLI=(LONG[CLI[(sec, opt)]] if long and (sec, opt) in CLI else CLI.get((sec, opt))), L=L, NCP=n, FIXB=fixb,
+                      EXTRA=tuple(extra), SFLAG="--settings" if long else "-s"),
                  timeout=timeout, encodes=ENC, unblock=["os.mkdir"],
                  symbolic="whether a -s file is given at all; for each of the three writable sources (per-user file, -s file, command line where a flag exists): whether it sets the option, and the value it gives"
                           + ("; relative_to_config switched on in the -s file and/or the per-user file" if mode == "outdir" else ""),
@@ -57,6 +61,10 @@ def build(tier):
     for ((sec, opt, mode), extra) in pairs:
         obs.append(ob(sec, opt, mode, L, t, extra=extra))
     obs.append(ob("output", "directory", "outdir", L, t, dict(use_s=True, c_set=True), extra=("-p", "P")))
+    # the long spellings of the five command-line options
+    for (sec, opt, mode) in (("input", "recursive", "bool"), ("rst", "prefix", "str"), ("input", "exclude_filters", "excl")):
+        obs.append(ob(sec, opt, mode, L, t, long=True))
+    obs.append(ob("output", "directory", "outdir", L, t, dict(use_s=True, c_set=True), long=True))
     # C16.b a value of the wrong type is rejected, in either file
     for (sec, opt) in (("input", "recursive"), ("input", "include_undocumented_function"), ("rst", "file_extensions_in_titles"),
                        ("input", "kwargs_doc_trigger_string"), ("rst", "module_path_separator")):
